@@ -268,6 +268,41 @@ func c05r3(p *Prog, r *Reporter) {
 				panicNoComp = true
 			}
 		}
+		// the target as an SSA value web (no memory cell): the value passed to the destination finder is a phi whose
+		// edges are the API-supplied target, the old table's target, and the zero entity from the guarded loop
+		for _, site := range callsIn(fn) {
+			if !isCallTo(site, foc) {
+				continue
+			}
+			for _, a := range site.Common().Args {
+				if !isEntityType(a.Type()) {
+					continue
+				}
+				seenPhi := map[*ssa.Phi]bool{}
+				var walk func(v ssa.Value)
+				walk = func(v ssa.Value) {
+					ph, ok := v.(*ssa.Phi)
+					if !ok || seenPhi[ph] {
+						if _, fld, _, ok := loadedField(v); ok && fld == "RelationTarget" {
+							initFromOld = true
+						}
+						return
+					}
+					seenPhi[ph] = true
+					for i, e := range ph.Edges {
+						if c, ok := e.(*ssa.Const); ok && isEntityType(c.Type()) {
+							pred := ph.Block().Preds[i]
+							if inLoop(pred) && guardedByIsRelation(p, pred) {
+								resetUnderLoop = true
+							}
+							continue
+						}
+						walk(e)
+					}
+				}
+				walk(a)
+			}
+		}
 		// the target may be computed by a helper the mover calls (a function returning an Entity that the mover stores into
 		// the target cell / passes on): the same four facts, in the helper's terms
 		for _, site := range callsIn(fn) {
